@@ -692,8 +692,9 @@ func (g *recGraph) createTypeRule(r *Result, scc []*recNode) bool {
 		return false
 	}
 	info := ct.fi.Pkg.TypesInfo
+	var curInfo = func() *types.Info { return info }
 	isRecCall := func(call *ast.CallExpr) bool {
-		fn := calleeOf(info, call)
+		fn := calleeOf(curInfo(), call)
 		t := g.byFn[fn]
 		for _, m := range scc {
 			if m == t && t != nil {
@@ -702,6 +703,16 @@ func (g *recGraph) createTypeRule(r *Result, scc []*recNode) bool {
 		}
 		return false
 	}
+	// the key under which the current function registers: createType's own parameter; in a helper the case hands its
+	// node to (`an.newArray(typ, …)`), the parameters that receive that key
+	keys := map[types.Object]bool{}
+	for _, f := range ct.typ.Params.List {
+		for _, nm := range f.Names {
+			keys[info.Defs[nm]] = true
+		}
+	}
+	cur := ct
+	curInfo = func() *types.Info { return cur.fi.Pkg.TypesInfo }
 	isRegistration := func(st ast.Stmt) bool {
 		as, ok := st.(*ast.AssignStmt)
 		if !ok || len(as.Lhs) != 1 {
@@ -711,8 +722,27 @@ func (g *recGraph) createTypeRule(r *Result, scc []*recNode) bool {
 		if !ok || !strings.HasSuffix(es(ix.X), ".Types") {
 			return false
 		}
-		return isParamExpr(ct, info, ix.Index)
+		if cur == ct {
+			return isParamExpr(ct, info, ix.Index)
+		}
+		id := identOf(ix.Index)
+		return id != nil && keys[objOf(cur.fi.Pkg.TypesInfo, id)]
 	}
+	// a helper of the cycle that is neither createType nor handleType: its body is walked in place, with the key bound
+	helperOf := func(call *ast.CallExpr) *recNode {
+		fn := calleeOf(cur.fi.Pkg.TypesInfo, call)
+		t := g.byFn[fn]
+		if t == nil || t == ct || t.lit != nil || strings.HasSuffix(t.name, ").handleType") || strings.HasSuffix(t.name, ".handleStructFields") {
+			return nil
+		}
+		for _, m := range scc {
+			if m == t {
+				return t
+			}
+		}
+		return nil
+	}
+	depth := 0
 	// every statement list: walk in order, track "registered"
 	n := 0
 	var walkList func(list []ast.Stmt, registered bool, ctx string)
@@ -721,6 +751,46 @@ func (g *recGraph) createTypeRule(r *Result, scc []*recNode) bool {
 			if isRegistration(st) {
 				registered = true
 				continue
+			}
+			// `return an.helper(key, …)` / `x := an.helper(key, …)`: continue inside the helper
+			if depth < 2 {
+				var hcall *ast.CallExpr
+				switch s := st.(type) {
+				case *ast.ReturnStmt:
+					if len(s.Results) == 1 {
+						hcall, _ = ast.Unparen(s.Results[0]).(*ast.CallExpr)
+					}
+				case *ast.AssignStmt:
+					if len(s.Rhs) == 1 {
+						hcall, _ = ast.Unparen(s.Rhs[0]).(*ast.CallExpr)
+					}
+				case *ast.ExprStmt:
+					hcall, _ = ast.Unparen(s.X).(*ast.CallExpr)
+				}
+				if hcall != nil {
+					if h := helperOf(hcall); h != nil {
+						cinfo := cur.fi.Pkg.TypesInfo
+						hkeys := map[types.Object]bool{}
+						i := 0
+						for _, f := range h.typ.Params.List {
+							for _, nm := range f.Names {
+								if i < len(hcall.Args) {
+									if id := identOf(hcall.Args[i]); id != nil && ((cur == ct && isParamExpr(ct, info, id)) || (cur != ct && keys[objOf(cinfo, id)])) {
+										hkeys[h.fi.Pkg.TypesInfo.Defs[nm]] = true
+									}
+								}
+								i++
+							}
+						}
+						savedKeys, savedCur := keys, cur
+						keys, cur = hkeys, h
+						depth++
+						walkList(h.body.List, registered, ctx+"/"+h.fi.Obj.Name())
+						depth--
+						keys, cur = savedKeys, savedCur
+						continue
+					}
+				}
 			}
 			switch s := st.(type) {
 			case *ast.IfStmt:
